@@ -886,6 +886,75 @@ def rule_pair_predicate(model):
     return r
 
 
+def rule_absent_vs_none(model):
+    r = RuleResult('C10.R8', 'an attribute of the element is visible in the '
+                   'body whatever its value: the wrapper pushed for an '
+                   'element reports "no such name" (KeyError) only when the '
+                   'attribute read itself failed, never because of the '
+                   'value it returned (None, 0, "" are values)')
+    fi = model.func('_DocumentTemplate', 'InstanceDict.__getitem__')
+    reads = [n for n in own_nodes(fi.node) if isinstance(n, ast.Call) and
+             n.args and norm(n.args[0]) == 'self.inst' and
+             len(n.args) >= 2]
+    if not reads:
+        raise AnalysisError('C10.R8: the attribute read of '
+                            'InstanceDict.__getitem__ was not found')
+    from ..model import parent as _parent
+    results = set()
+    for c in reads:
+        par = _parent(c)
+        if isinstance(par, ast.Assign):
+            for t in par.targets:
+                if isinstance(t, ast.Name):
+                    results.add(t.id)
+        if len(c.args) >= 3:
+            d = c.args[2]
+            sentinel = isinstance(d, ast.Name) and any(
+                isinstance(v, ast.Call) or isinstance(v, (ast.List,
+                                                         ast.Dict))
+                for v in fi.module.globals.get(d.id, []))
+            r.instance(fi.where, c, 'unique sentinel default' if sentinel
+                       else 'VALUE AS DEFAULT')
+            if not sentinel:
+                r.finding(fi.where, c, f'the attribute is read with the '
+                          f'default `{norm(d)}`, a value an attribute can '
+                          'have: such an attribute cannot be told from a '
+                          'missing one', node=c, ctx=fi)
+        else:
+            r.instance(fi.where, c, 'raises when missing')
+    for x in own_nodes(fi.node):
+        if not isinstance(x, ast.Raise):
+            continue
+        node = x
+        for anc in ancestors(x):
+            if isinstance(anc, ast.If) and node in anc.body + anc.orelse \
+                    and any(isinstance(y, ast.Name) and y.id in results
+                            for y in ast.walk(anc.test)):
+                # a test of the value read; fine only against a sentinel
+                sent = any(
+                    isinstance(y, ast.Compare) and isinstance(
+                        y.ops[0], (ast.Is, ast.IsNot)) and isinstance(
+                        y.comparators[0], ast.Name) and any(
+                        isinstance(v, (ast.Call, ast.List, ast.Dict))
+                        for v in fi.module.globals.get(
+                            y.comparators[0].id, []))
+                    for y in ast.walk(anc.test))
+                r.instance(fi.where, anc.test, 'sentinel test' if sent
+                           else 'VALUE TEST')
+                if not sent:
+                    r.finding(fi.where, f'if {norm(anc.test)}: '
+                              f'{norm(x)}', 'the name is reported as '
+                              'undefined depending on the VALUE of the '
+                              'attribute: an element attribute that is '
+                              'None (or false) is invisible in the body and '
+                              'the lookup falls through to outer sources',
+                              node=x, ctx=fi)
+            if isinstance(anc, (ast.FunctionDef, ast.Lambda)):
+                break
+            node = anc
+    return r
+
+
 def rule_own_namespace(model):
     r = RuleResult('C10.R6', 'the variable object dtml-in pushes answers a '
                    'key without a dash only when a non-empty prefix= alias '
@@ -898,7 +967,7 @@ def rule_own_namespace(model):
 RULES = [_inl(rule_index), _inl(rule_prefix), _inl(rule_providers),
          _inl(rule_empty),
          _inl(rule_twins), rule_own_namespace,
-         rule_pair_predicate]
+         rule_pair_predicate, rule_absent_vs_none]
 EXPLANATION = (
     'Loop-bound agreement (linear forms) for index uses and first/last '
     'markers; store-site query for prefix-aware keys; provider table for '
